@@ -171,7 +171,24 @@ def f_alias_recursion(draw, i):
         "recursion-through-alias.2"
 
 
-FRAGMENTS = [f_alias_recursion, f_param_type, f_param_value, f_values, f_named, f_nested_anon, f_neg_default, f_components_of, f_class,
+def f_alphabet_edge(draw, i):
+    """permitted alphabets whose largest character sits at the edge of the generated lookup tables"""
+    top = _n(draw, 127, 128, 254, 255, 256, 257, 65534, 65535)
+    kind = _n(draw, "BMPString", "UniversalString", "BMPString") if top > 255 else _n(draw, "IA5String", "VisibleString", "BMPString",
+                                                                                      "UniversalString", "PrintableString")
+    if kind in ("IA5String", "VisibleString", "PrintableString") and top > 126:
+        top = 122
+    def ch(c):
+        return '"%s"' % chr(c) if 32 < c < 127 and chr(c) not in "\"'" else "{0, 0, %d, %d}" % (c >> 8, c & 255)
+    parts = _n(draw, ['"A".."Z"', '"a".."z"'], ['"0".."9"'], ['"A".."F"', '"0".."9"', '"x"'])
+    alpha = " | ".join(parts + [ch(top)]) if draw(st.booleans()) else " | ".join(parts + ["%s..%s" % (ch(max(top - 5, 123)), ch(top))]
+                                                                                  if top > 130 else parts + [ch(top)])
+    size = _n(draw, "", " (SIZE(1..8))", " (SIZE(4))")
+    return ("FAl%d ::= %s (FROM (%s))%s\nFAlS%d ::= SEQUENCE { a FAl%d, b %s (FROM (%s)) OPTIONAL }\n"
+            % (i, kind, alpha, size, i, i, kind, alpha)), "alphabet-edge.%d" % top
+
+
+FRAGMENTS = [f_alphabet_edge, f_alias_recursion, f_param_type, f_param_value, f_values, f_named, f_nested_anon, f_neg_default, f_components_of, f_class,
              f_strings, f_keywords, f_selection]
 
 
@@ -262,6 +279,11 @@ def fault_huge(draw, text):
 
 def fault_dup_enum(draw, text):
     body = _n(draw, "FDupE ::= ENUMERATED { a(1), b(1) }", "FDupE ::= ENUMERATED { a, b, a }",
+              "FDupE ::= ENUMERATED { red, green, ..., blue, blue }", "FDupE ::= ENUMERATED { red, ..., blue(5), sky(5) }",
+              "FDupE ::= SEQUENCE { id INTEGER, ..., note UTF8String OPTIONAL, note BOOLEAN OPTIONAL }",
+              "FDupE ::= CHOICE { id INTEGER, ..., note UTF8String, note BOOLEAN }",
+              "FDupE ::= SET { id [0] INTEGER, ..., note [1] UTF8String OPTIONAL, note [2] BOOLEAN OPTIONAL }",
+              "FDupE ::= SEQUENCE { id INTEGER, note NULL, ..., note BOOLEAN OPTIONAL }",
               "FDupE ::= ENUMERATED { a(0), b, c(1) }", "FDupE ::= INTEGER { a(1), a(2) }",
               "FDupE ::= BIT STRING { a(1), b(1) }", "FDupE ::= ENUMERATED { a, ..., b(0) }")
     return text.replace("\nEND", "\n%s\n\nEND" % body, 1)
